@@ -3,7 +3,7 @@ From Coq Require Import Reals List Lra.
 From AhrsLib Require Import Base Rot.
 From AhrsModel Require Import C03_letin.
 From AhrsGen Require Import C03gen_R C03gen_L.
-From AhrsProps Require Import C03_core C03_partial_L C03_full_L C03_eq_t1 C03_eq_t2 C03_eq_t3.
+From AhrsProps Require Import C03_core C03_partial_L C03_full_L C03_est_L C03_eq_t1 C03_eq_t2 C03_eq_t3 C03_eq_t4.
 Import ListNotations.
 Open Scope R_scope.
 
@@ -22,3 +22,9 @@ Proof.
   split; [exact (madgwick_marg_partialL w x y z gx gy gz ax ay az mx my mz U)|]. split; [exact (aqua_imu_partialL w x y z gx gy gz ax ay az U)|exact (fourati_partialL w x y z gx gy gz ax ay az mx my mz U)].
 Qed.
 Print Assumptions C03_unit_or_degenerate_large_partial_R.
+
+Theorem C03_ekf_imu_on_guard_partial_R : forall w x y z gx gy gz ax ay az p00 p01 p02 p03 p10 p11 p12 p13 p20 p21 p22 p23 p30 p31 p32 p33,
+  w*w + x*x + y*y + z*z = 1 -> 0 < ax*ax + ay*ay + az*az ->
+  val_unit_or_zero (C03_ekf_imu_R w x y z gx gy gz ax ay az p00 p01 p02 p03 p10 p11 p12 p13 p20 p21 p22 p23 p30 p31 p32 p33).
+Proof. intros. rewrite <- eq_ekf_imu. apply ekf_imu_guard; assumption. Qed.
+Print Assumptions C03_ekf_imu_on_guard_partial_R.
